@@ -1,9 +1,13 @@
 package props
 
 import (
+	"fmt"
 	"go/ast"
+	"go/constant"
+	"go/token"
 	"go/types"
 	"sort"
+	"strconv"
 	"strings"
 
 	"occheck/internal/engine"
@@ -93,6 +97,7 @@ func runC13(c *engine.Ctx, tier string) {
 	}
 	// (3) discarded errors
 	discardedErrors(c)
+	wholeStringValidity(c)
 	// (4) addressing
 	addressing(c, sp, err)
 }
@@ -369,6 +374,93 @@ func addressing(c *engine.Ctx, sp []*engine.Path, err error) {
 			o.Site(root + ": stored path checked on every recording path")
 		} else {
 			o.Undecided(root, "anchor not found: no write of target.updates / target.removes")
+		}
+	}
+}
+
+// wholeStringValidity: C13.6. The path validity helper decides on the whole string.
+func wholeStringValidity(c *engine.Ctx) {
+	o := c.Custom("C13.6", "helper shape(IsPathValid)", "utils/path.IsPathValid returns nil only on paths that establish that the WHOLE path matches the expression: path == re.FindString(path), or re.MatchString(path) with an expression anchored at both ends",
+		"the helper is the only check on the text of delete paths and list keys: an unanchored match accepts any string that merely contains a valid path")
+	defer o.Done(1)
+	ps, err := c.A.PathsOpt(pkgUtilsPath, engine.PathOpts{Roots: []string{"utils/path.IsPathValid"}, Exact: true, NoInline: true})
+	if err != nil || len(ps) == 0 {
+		o.Undecided(pkgUtilsPath, fmt.Sprintf("no paths for IsPathValid: %v", err))
+		return
+	}
+	pkg := c.P.Pkg(pkgUtilsPath)
+	// pattern of a regexp expression: regexp.MustCompile(<const>) directly, or a package variable so initialised
+	patternOf := func(recv string) (string, bool) {
+		recv = strings.TrimSuffix(strings.TrimPrefix(recv, "{"), "}")
+		arg := ""
+		if strings.HasPrefix(recv, "regexp.MustCompile(") && strings.HasSuffix(recv, ")") {
+			arg = recv[len("regexp.MustCompile(") : len(recv)-1]
+		} else if pkg != nil {
+			name := recv[strings.LastIndex(recv, ".")+1:]
+			for _, f := range pkg.Syntax {
+				for _, d := range f.Decls {
+					gd, ok := d.(*ast.GenDecl)
+					if !ok || gd.Tok != token.VAR {
+						continue
+					}
+					for _, sp := range gd.Specs {
+						vs := sp.(*ast.ValueSpec)
+						for i, n := range vs.Names {
+							if n.Name == name && i < len(vs.Values) {
+								if call, ok := vs.Values[i].(*ast.CallExpr); ok && len(call.Args) == 1 && types.ExprString(call.Fun) == "regexp.MustCompile" {
+									if tv, ok := pkg.TypesInfo.Types[call.Args[0]]; ok && tv.Value != nil {
+										return constant.StringVal(tv.Value), true
+									}
+								}
+							}
+						}
+					}
+				}
+			}
+			return "", false
+		}
+		if strings.HasPrefix(arg, "\"") || strings.HasPrefix(arg, "`") {
+			if s, err := strconv.Unquote(arg); err == nil {
+				return s, true
+			}
+		}
+		if cst := c.P.LookupConst(arg); cst != nil {
+			return constant.StringVal(cst.Val()), true
+		}
+		// unexported constant of the package
+		if pkg != nil {
+			if obj, ok := pkg.Types.Scope().Lookup(arg[strings.LastIndex(arg, ".")+1:]).(*types.Const); ok {
+				return constant.StringVal(obj.Val()), true
+			}
+		}
+		return "", false
+	}
+	for _, p := range ps {
+		last := &p.Events[len(p.Events)-1]
+		if last.Kind != engine.EvReturn || len(last.Results) != 1 || last.Results[0] != "nil" {
+			continue
+		}
+		o.Site(c.P.Pos(last.Pos) + " return nil")
+		o.Eval(1)
+		whole := false
+		for _, l := range engine.CondsBefore(p, len(p.Events)-1) {
+			a, b := l.L, l.R
+			if b == "$path" {
+				a, b = b, a
+			}
+			if a == "$path" && l.Mask == 2 && strings.HasSuffix(b, "regexp.Regexp.FindString($path)") {
+				whole = true
+			}
+			if l.R == "true" && l.Mask == 2 && strings.HasSuffix(l.L, "regexp.Regexp.MatchString($path)") {
+				if pat, ok := patternOf(l.L[:strings.Index(l.L, "}")+1]); ok && strings.HasPrefix(pat, "^") && strings.HasSuffix(pat, "$") && !strings.HasSuffix(pat, `\$`) {
+					whole = true
+				}
+			}
+		}
+		if !whole {
+			o.Fail(&engine.Violation{Key: "utils/path.IsPathValid|accepts without a whole-string match", Pos: c.P.Pos(last.Pos), Func: p.Root.Name(),
+				Msg:   "nil is returned on a path that does not establish that the whole path matches (neither path == FindString(path) nor MatchString on an expression anchored with ^…$)",
+				Found: engine.LitsString(engine.CondsBefore(p, len(p.Events)-1))})
 		}
 	}
 }
